@@ -21,7 +21,7 @@ EPS = float(np.finfo(float).eps)
 EE = CCD + 'estimate_embedded_error.py'
 
 
-def _ctrl(mk, cls, params=None, n=1, nlevels=1, sweeper=None, M=2):
+def _ctrl(mk, cls, params=None, n=1, nlevels=None, sweeper=None, M=2):
     c, tr = make_ctrl(mk, n, nlevels=nlevels, conv={cls: dict(params or {})}, sweeper=sweeper, M=M)
     return c, find_cc(c, cls.__name__)
 
@@ -172,6 +172,10 @@ class EmbeddedLinearized(_Base):
 
     def instances(self, tier):
         return [dict(averaged=a, n=n) for a in (False, True) for n in (1, 3)]
+
+    def all_instances(self, tier):
+        # several steps AND several levels is rejected by design (NotImplementedError, "serial multi-level or parallel single level")
+        return [i for i in _Base.all_instances(self, tier) if not (i['n'] > 1 and i.get('nlevels', 1) > 1)]
 
     def build(self, inst, mk):
         cls = cls_of(EE, 'EstimateEmbeddedErrorLinearizedNonMPI')
